@@ -19,11 +19,15 @@ def abstract_to_graph(mod):
         for site, names in e.get("refs", []):
             refs[site] = list(names)
         el = {"kind": e["kind"], "name": e["name"], "c": e["c"], "refs": refs}
+        if isinstance(e.get("opts"), dict) and set(e["opts"]) != {"none"}:
+            el["opts"] = e["opts"]
         if e.get("criteria"):
             el["criteria"] = list(e["criteria"])
         elems.append(el)
     need = set()
     for e in elems:
+        if e["kind"] in ("CHARACTERISTIC", "TYPEDEF_CHARACTERISTIC") and "ctype" in (e.get("opts") or {}):
+            need.add("rl0")
         if e["kind"] in ("AXIS_PTS", "CHARACTERISTIC", "TYPEDEF_AXIS", "TYPEDEF_CHARACTERISTIC"):
             site = {"AXIS_PTS": "AXIS_PTS.deposit_record", "CHARACTERISTIC": "CHARACTERISTIC.deposit",
                     "TYPEDEF_AXIS": "TYPEDEF_AXIS.record_layout", "TYPEDEF_CHARACTERISTIC": "TYPEDEF_CHARACTERISTIC.record_layout"}[e["kind"]]
